@@ -46,7 +46,11 @@ Endings == { CDirect(<<SRun(-1)>>), CDirect(<<SRun(20)>>), CDirect(<<SCont>>), C
 RECURSIVE Feed(_, _, _)
 Feed(mm, cs, i) == IF i > Len(cs) THEN mm ELSE Feed(Do(mm, cs[i], Fuel), cs, i + 1)
 
+\* a program that deletes one of its own lines while it runs
+SelfEdit == << CLine(10, <<PS(<<65>>), [k |-> "delete", a |-> 30, b |-> 30, form |-> "one", bare |-> FALSE], PS(<<66>>)>>),
+               CLine(20, <<PS(<<67>>)>>), CLine(30, <<PS(<<68>>)>>) >>
 Prefixes == { Base(x) \o <<CDirect(<<SRun(-1)>>)>> : x \in {"stop", "end", "err"} } \cup { Base("stop") }
+            \cup { SelfEdit \o <<CDirect(<<SRun(-1)>>)>> }
 
 Init == \E pre \in Prefixes : m = Feed(InitM, pre, 1) /\ cmds = pre /\ nh = 0
 
@@ -62,7 +66,9 @@ IsEdit(c) == c.k = "line" \/ (c.k = "direct" /\ c.stmts[1].k \in {"delete", "new
 \* an edit cancels the continuation and every frame pointing into the old program
 EditCancels == [][ m'.lst # m.lst => (m'.cont = NoCont /\ m'.ctl = <<>>) ]_vars
 \* only editing commands change the stored program
-OnlyEditsEdit == [][ m'.lst # m.lst => IsEdit(cmds'[Len(cmds')]) ]_vars
+\* (unless the stored program itself contains an editing statement and is running)
+SelfEditing(mm) == \E n \in DOMAIN mm.lst : \E i \in 1..Len(mm.lst[n]) : mm.lst[n][i].k \in {"delete", "new", "renum"}
+OnlyEditsEdit == [][ m'.lst # m.lst => (IsEdit(cmds'[Len(cmds')]) \/ SelfEditing(m)) ]_vars
 \* a program with compile-time errors never runs; the machine always comes back to the prompt
 TypeOK == m.mode \in {"ready", "oom"}
 View == <<m, nh>>
